@@ -341,6 +341,96 @@ fn stream_a_case(w: &mut CasesWriter, r: &mut Rng, nops: usize, forced: Option<V
 }
 
 // ---------------------------------------------------------------------------
+// Stream F: the blocking-mode write (poll_write_full) through the system API
+
+fn stream_f_case(w: &mut CasesWriter, r: &mut Rng, nops: usize) {
+    use std::future::Future;
+    use std::pin::Pin;
+    use std::task::{Context, Poll, Waker};
+    WATCHDOG.with(|wd| wd.tick("stream F"));
+    let system = VirtualSystem::new();
+    let (rfd, wfd) = system.pipe().unwrap();
+    system.get_and_set_nonblocking(rfd, true).unwrap(); // only the read end; the write end blocks
+    let inode = system.with_open_file_description(rfd, |ofd| Ok(Rc::clone(ofd.inode()))).unwrap();
+    let mut counter = r.below(251);
+    let mut pending: Option<Pin<Box<dyn Future<Output = Result<usize, Errno>>>>> = None;
+    let mut reader_open = true;
+    let mut hist = vec![];
+    let mut human = vec![];
+    let mut saw_pending = false;
+    let mut cx = Context::from_waker(Waker::noop());
+    for _ in 0..nops {
+        let choice = r.below(100);
+        let (op_t, obs_t, desc) = if pending.is_none() && choice < 45 {
+            let len = pick_size(r, 3 * PIPE_SIZE + 5);
+            let data = sq(counter, len);
+            counter = (counter + len) % 251;
+            let sys = system.clone();
+            let d2 = data.clone();
+            let mut fut: Pin<Box<dyn Future<Output = Result<usize, Errno>>>> =
+                Box::pin(async move { sys.write(wfd, &d2).await });
+            let res = fut.as_mut().poll(&mut cx);
+            let t = match res {
+                Poll::Ready(Ok(n)) => format!("(BReady {})", coq::nat(n)),
+                Poll::Ready(Err(_)) => "BErr".to_string(),
+                Poll::Pending => {
+                    pending = Some(fut);
+                    saw_pending = true;
+                    "BPending".to_string()
+                }
+            };
+            (format!("(FStart {})", coq_bytes(&data)), format!("(FoW {t})"), format!("write({len}) -> {t}"))
+        } else if pending.is_some() && choice < 40 {
+            let mut fut = pending.take().unwrap();
+            let res = fut.as_mut().poll(&mut cx);
+            let t = match res {
+                Poll::Ready(Ok(n)) => format!("(BReady {})", coq::nat(n)),
+                Poll::Ready(Err(_)) => "BErr".to_string(),
+                Poll::Pending => {
+                    pending = Some(fut);
+                    "BPending".to_string()
+                }
+            };
+            ("FPoll".to_string(), format!("(FoW {t})"), format!("poll -> {t}"))
+        } else if reader_open && choice < 95 {
+            let cap = match r.below(5) {
+                0 => 1,
+                1 => PIPE_BUF,
+                2 => PIPE_SIZE,
+                _ => 1 + pick_size(r, 2 * PIPE_SIZE),
+            };
+            let mut buf = vec![0u8; cap];
+            let res = system.read(rfd, &mut buf).now_or_never();
+            let t = match res {
+                Some(Ok(n)) => format!("(ROk {})", coq_bytes(&buf[..n])),
+                Some(Err(Errno::EAGAIN)) => "RAgain".to_string(),
+                _ => "(ROk [999%N])".to_string(),
+            };
+            (format!("(FReadN {})", coq::nat(cap)), format!("(FoR {t})"), format!("read({cap})"))
+        } else if reader_open && choice >= 98 {
+            system.close(rfd).unwrap();
+            reader_open = false;
+            ("FCloseRd".to_string(), "FoUnit".to_string(), "close(r)".to_string())
+        } else {
+            continue;
+        };
+        let (content, readers, writers) = fifo_snapshot(&inode);
+        let snap = format!("({}, {}, {})", digest_bytes(&content).coq(), coq::b(readers > 0), coq::b(writers > 0));
+        hist.push(format!("({op_t}, {obs_t}, {snap})"));
+        human.push(format!("{desc} [len={}]", content.len()));
+    }
+    drop(pending);
+    let term = format!("(CBlock {} {})", cfg_term(), coq::list(&hist));
+    let json = format!(
+        "{{\"stream\":\"F\",\"ops\":[{}]}}",
+        human.iter().map(|h| json_str(h)).collect::<Vec<_>>().join(",")
+    );
+    w.count(if saw_pending { "F.case:write-blocked" } else { "F.case:never-blocked" });
+    let key = if saw_pending { Some(format!("F:{}", human.join(";"))) } else { None };
+    w.push(&term, &json, &[], key);
+}
+
+// ---------------------------------------------------------------------------
 // Stream B: write_all / read_all (or read) tasks under a chosen schedule
 
 #[derive(Clone, Debug)]
@@ -1176,6 +1266,13 @@ fn main() {
         let mut r = rng.fork(1000 + k as u64);
         let nops = if args.thorough() { 4 + r.below(36) } else { 4 + r.below(24) };
         stream_a_case(&mut w, &mut r, nops, None);
+    }
+
+    let nf = args.scale(60, 1500);
+    for k in 0..nf {
+        let mut r = rng.fork(11_000_000 + k as u64);
+        let nops = 4 + r.below(20);
+        stream_f_case(&mut w, &mut r, nops);
     }
 
     let nb = args.scale(240, 5000);
